@@ -141,6 +141,14 @@ pub fn unix_now() -> u64 {
         .as_secs()
 }
 
+/// Sleep until just after the next wall-clock second boundary (a run that must stay inside one second
+/// then has the whole second ahead of it).
+pub fn align_to_second() {
+    let now = std::time::SystemTime::now().duration_since(std::time::UNIX_EPOCH).unwrap();
+    let rest = 1_000_000_000u64 - now.subsec_nanos() as u64;
+    std::thread::sleep(std::time::Duration::from_nanos(rest + 2_000_000));
+}
+
 pub fn panic_msg(e: &Box<dyn std::any::Any + Send>) -> String {
     e.downcast_ref::<String>()
         .cloned()
